@@ -72,6 +72,8 @@ func (e *Env) globalValue(s *State, pk string, v *types.Var) Value {
 			c := e.errCtor()
 			e.ctx.errIDs++
 			e.ctx.axiom(eq(name, app(c.Name, intLit(int64(e.ctx.errIDs)))))
+			e.ctx.declFun("errwraps", []string{"Val"}, "Val")
+			e.ctx.axiom(eq(app("errwraps", name), "VNil"))
 		} else {
 			f := e.typeFacts(&State{alloc: "alloc!0"}, val)
 			if f != "true" {
@@ -93,6 +95,7 @@ func (e *Env) freshErr(s *State) Value {
 	c := e.errCtor()
 	id := e.ctx.freshConst("errid", "Int")
 	s.assume("(> " + id + " 1000000)")
+	e.ctx.declFun("errwraps", []string{"Val"}, "Val")
 	return Value{T: app(c.Name, id), Sort: "Val", GoT: types.Universe.Lookup("error").Type()}
 }
 
